@@ -1,5 +1,6 @@
 (* Proofs of the airtime clauses of C20: the model of airtime.go equals the
-   AN1200.13 formula (AirtimeSpec.v) and never decreases with the payload. *)
+   Semtech time-on-air (AirtimeSpec.v: SX126x form for SF5/SF6, AN1200.13 form
+   for SF7..12) truncated to whole nanoseconds, and never decreases with the payload. *)
 From Coq Require Import List ZArith QArith Qround Bool Lia Lqa.
 From LW Require Import Base.Outcome Misc.Airtime Misc.AirtimeSpec.
 Import ListNotations.
@@ -12,30 +13,76 @@ Proof.
   rewrite inject_Z_opp. unfold Qdiv. ring.
 Qed.
 
-Lemma sym_a_q pl sf header :
-  (8 * zq pl - 4 * zq sf + 28 + 16 * 1 - 20 * bq (negb header) == inject_Z (sym_a pl sf header))%Q.
-Proof. unfold sym_a, zq, Qeq. destruct header; cbn [Qnum Qden Qplus Qminus Qmult Qopp inject_Z bq negb b2z Pos.mul]; lia. Qed.
+Ltac qz := cbn [Qnum Qden Qplus Qminus Qmult Qopp inject_Z bq negb b2z Pos.mul].
 
-Lemma sym_b_q sf ldro : (4 * (zq sf - 2 * bq ldro) == inject_Z (sym_b sf ldro))%Q.
-Proof. unfold sym_b, zq, Qeq. destruct ldro; cbn [Qnum Qden Qplus Qminus Qmult Qopp inject_Z bq negb b2z Pos.mul]; lia. Qed.
+Lemma numerator_q pl sf header : (spec_numerator pl sf header == inject_Z (sym_a pl sf header))%Q.
+Proof.
+  unfold spec_numerator, sym_a, low_sf, zq, Qeq.
+  destruct (sf <=? 6), header; qz; lia.
+Qed.
 
-Lemma spec_npayload_model pl sf cr header ldro :
+Lemma denominator_q sf ldro : (spec_denominator sf ldro == inject_Z (sym_b sf ldro))%Q.
+Proof.
+  unfold spec_denominator, sym_b, low_sf, zq, Qeq.
+  destruct (sf <=? 6), ldro; qz; lia.
+Qed.
+
+Lemma qmax0_z a : (qmax0 (inject_Z a) == inject_Z (Z.max a 0))%Q.
+Proof.
+  unfold qmax0. destruct (Qle_bool 0 (inject_Z a)) eqn:E.
+  - apply Qle_bool_iff in E. change 0%Q with (inject_Z 0) in E. rewrite <- (Zle_Qle 0 a) in E. now rewrite Z.max_l by lia.
+  - assert (~ (0 <= a)).
+    { intros H. rewrite (Zle_Qle 0 a) in H. change (inject_Z 0) with 0%Q in H. apply Qle_bool_iff in H.
+      rewrite H in E. discriminate. }
+    now rewrite Z.max_r by lia.
+Qed.
+
+Lemma qmax0_comp x y : (x == y)%Q -> (qmax0 x == qmax0 y)%Q.
+Proof.
+  intros H. unfold qmax0.
+  destruct (Qle_bool 0 x) eqn:Ex, (Qle_bool 0 y) eqn:Ey; try reflexivity; try exact H.
+  - apply Qle_bool_iff in Ex. rewrite H in Ex. apply Qle_bool_iff in Ex. congruence.
+  - apply Qle_bool_iff in Ey. rewrite <- H in Ey. apply Qle_bool_iff in Ey. congruence.
+Qed.
+
+(* ceil(max(a,0)/b) * c  =  max(ceil(a/b) * c, 0)   (the data sheets put the max inside, AN1200.13 and the code outside) *)
+Lemma ceil_max_inside a b c : 0 < b -> 0 < c ->
+  ceil_div (Z.max a 0) b * c = Z.max (ceil_div a b * c) 0.
+Proof.
+  intros Hb Hc. unfold ceil_div. destruct (Z.le_gt_cases a 0) as [Ha|Ha].
+  - rewrite Z.max_r by lia. cbn [Z.opp]. rewrite Z.div_0_l by lia.
+    assert (0 <= (- a) / b) by (apply Z.div_pos; lia). nia.
+  - rewrite Z.max_l by lia.
+    assert ((- a) / b <= 0 / b) by (apply Z.div_le_mono; lia). rewrite Z.div_0_l in H by lia. nia.
+Qed.
+
+Lemma sym_b_pos sf ldro : 3 <= sf -> 0 < sym_b sf ldro.
+Proof. intros H. unfold sym_b. destruct (Z.leb_spec sf 6), ldro; cbn [b2z]; lia. Qed.
+
+Lemma spec_npayload_model pl sf cr header ldro : 0 < sym_b sf ldro -> 0 < cr + 4 ->
   spec_npayload pl sf cr header ldro
   = 8 + Z.max (ceil_div (sym_a pl sf header) (sym_b sf ldro) * (cr + 4)) 0.
 Proof.
-  unfold spec_npayload. f_equal. f_equal. f_equal.
+  intros Hb Hc. unfold spec_npayload. f_equal.
+  rewrite <- ceil_max_inside by assumption. f_equal.
   rewrite <- Qceiling_div. apply Qceiling_comp.
-  rewrite sym_a_q, sym_b_q. reflexivity.
+  rewrite <- qmax0_z, denominator_q. apply Qdiv_comp; [|reflexivity].
+  apply qmax0_comp, numerator_q.
 Qed.
 
-(* for every payload size, spreading factor, header and LDRO setting: the
+(* for every payload size, header and LDRO setting and every SF >= 3: the
    count is the formula's, or an error exactly for coding rates outside 1..4 *)
-Theorem symbols_formula pl sf cr header ldro :
+Theorem symbols_formula pl sf cr header ldro : 3 <= sf ->
   payload_symbols pl sf cr header ldro =
   if (1 <=? cr) && (cr <=? 4) then Ok (spec_npayload pl sf cr header ldro) else Err.
 Proof.
-  unfold payload_symbols. rewrite spec_npayload_model.
-  destruct (Z.ltb_spec cr 1), (Z.ltb_spec 4 cr), (Z.leb_spec 1 cr), (Z.leb_spec cr 4); cbn; try lia; reflexivity.
+  intros Hs. unfold payload_symbols.
+  destruct (Z.ltb_spec cr 1), (Z.ltb_spec 4 cr); cbn [orb].
+  - replace ((1 <=? cr) && (cr <=? 4)) with false by lia. reflexivity.
+  - replace ((1 <=? cr) && (cr <=? 4)) with false by lia. reflexivity.
+  - replace ((1 <=? cr) && (cr <=? 4)) with false by lia. reflexivity.
+  - replace ((1 <=? cr) && (cr <=? 4)) with true by lia.
+    rewrite spec_npayload_model by (try apply sym_b_pos; lia). reflexivity.
 Qed.
 
 (* ---- the property's domain ---- *)
@@ -60,8 +107,9 @@ Ltac split_cr cr :=
   let H := fresh in
   assert (H : cr = 1 \/ cr = 2 \/ cr = 3 \/ cr = 4) by lia;
   destruct H as [->|[->|[->| ->]]].
+Ltac split_bw H := cbn [In bw_list] in H; destruct H as [<-|[<-|[<-|[<-|[<-|[]]]]]].
 
-(* ---- monotone in the payload size (any payload sizes, any sf with sf - 2*de > 0) ---- *)
+(* ---- monotone in the payload size ---- *)
 Lemma ceil_div_mono a1 a2 b : 0 < b -> a1 <= a2 -> ceil_div a1 b <= ceil_div a2 b.
 Proof.
   intros Hb Ha. unfold ceil_div.
@@ -69,12 +117,13 @@ Proof.
 Qed.
 
 Lemma npayload_mono pl1 pl2 sf cr header ldro :
-  0 < sym_b sf ldro -> 1 <= cr -> pl1 <= pl2 ->
+  3 <= sf -> 1 <= cr -> pl1 <= pl2 ->
   spec_npayload pl1 sf cr header ldro <= spec_npayload pl2 sf cr header ldro.
 Proof.
-  intros Hb Hc Hp. rewrite !spec_npayload_model.
+  intros Hs Hc Hp. pose proof (sym_b_pos sf ldro Hs) as Hb.
+  rewrite !spec_npayload_model by lia.
   assert (H : ceil_div (sym_a pl1 sf header) (sym_b sf ldro) <= ceil_div (sym_a pl2 sf header) (sym_b sf ldro)).
-  { apply ceil_div_mono; [assumption|]. unfold sym_a. lia. }
+  { apply ceil_div_mono; [assumption|]. unfold sym_a. destruct (sf <=? 6); lia. }
   assert (H2 : ceil_div (sym_a pl1 sf header) (sym_b sf ldro) * (cr + 4)
                <= ceil_div (sym_a pl2 sf header) (sym_b sf ldro) * (cr + 4)).
   { apply Z.mul_le_mono_nonneg_r; lia. }
@@ -85,45 +134,52 @@ Lemma npayload_bounds pl sf cr header ldro :
   0 <= pl <= 255 -> 5 <= sf <= 12 -> 1 <= cr <= 4 ->
   8 <= spec_npayload pl sf cr header ldro <= 1392.
 Proof.
-  intros Hp Hs Hc. rewrite spec_npayload_model. unfold ceil_div, sym_a, sym_b.
-  split_sf sf; split_cr cr; destruct header, ldro; cbn [b2z negb]; lia.
+  intros Hp Hs Hc. rewrite spec_npayload_model by (try apply sym_b_pos; lia).
+  unfold ceil_div, sym_a, sym_b.
+  split_sf sf; split_cr cr; destruct header, ldro; cbn [b2z negb Z.leb Z.compare Pos.compare Pos.compare_cont]; lia.
 Qed.
 
 (* ---- the whole computation on the domain: no wrap-around, no panic, no error ---- *)
-Definition sym_dur (sf bw : Z) : Z := 2 ^ sf * 1000000 / bw.   (* floor of 2^SF * 10^6 / BW *)
+(* number of symbols in 1/100 *)
+Definition symbols100 (pl sf pre cr : Z) (header ldro : bool) : Z :=
+  100 * pre + (if sf <=? 6 then 625 else 425) + 100 * spec_npayload pl sf cr header ldro.
 
 Definition airtime_closed_form (pl sf bw pre cr : Z) (header ldro : bool) : Z :=
-  (100 * pre + 425) * sym_dur sf bw / 100 + spec_npayload pl sf cr header ldro * sym_dur sf bw.
+  symbols100 pl sf pre cr header ldro * 2 ^ sf * 1000000 / (100 * bw).
 
-Ltac split_bw H := cbn [In bw_list] in H; destruct H as [<-|[<-|[<-|[<-|[<-|[]]]]]].
+Lemma pow2_sf_bounds sf : 5 <= sf <= 12 -> shl1 sf = 2 ^ sf /\ 32 <= 2 ^ sf <= 4096.
+Proof. intros Hs. split_sf sf; vm_compute; (split; [reflexivity|split; discriminate]). Qed.
 
-Ltac eval_closed t := let x := eval vm_compute in t in change t with x.
-
-Lemma symbol_duration_domain sf bw : 5 <= sf <= 12 -> In bw bw_list ->
-  symbol_duration sf bw = Ok (sym_dur sf bw) /\ 19692 <= sym_dur sf bw <= 32768000.
-Proof.
-  intros Hs Hb. split_sf sf; split_bw Hb; vm_compute; (split; [reflexivity|split; discriminate]).
-Qed.
+Lemma bw_bounds bw : In bw bw_list -> 125 <= bw <= 1625.
+Proof. intros Hb. split_bw Hb; lia. Qed.
 
 Theorem airtime_closed pl sf bw pre cr header ldro : air_domain pl sf bw pre cr ->
   airtime pl sf bw pre cr header ldro = Ok (airtime_closed_form pl sf bw pre cr header ldro).
 Proof.
-  intros (Hp & Hs & Hb & Hpre & Hc). unfold airtime, airtime_closed_form.
-  destruct (symbol_duration_domain sf bw Hs Hb) as [-> Hsd]. cbn [bind].
-  rewrite symbols_formula.
+  intros (Hp & Hs & Hb & Hpre & Hc). unfold airtime, airtime_closed_form, symbols100.
+  rewrite symbols_formula by lia.
   replace ((1 <=? cr) && (cr <=? 4)) with true by lia. cbn [bind].
   pose proof (npayload_bounds pl sf cr header ldro Hp Hs Hc) as Hn.
   generalize dependent (spec_npayload pl sf cr header ldro). intros n Hn.
-  generalize dependent (sym_dur sf bw). intros sd Hsd.
-  unfold preamble_duration.
+  destruct (pow2_sf_bounds sf Hs) as [-> Hpw]. pose proof (bw_bounds bw Hb) as Hbw.
+  generalize dependent (2 ^ sf). intros P HP.
   rewrite (wrap64_id (100 * pre)) by lia.
   rewrite (wrap64_id (100 * pre + 425)) by lia.
-  assert (0 <= (100 * pre + 425) * sd <= 6825 * 32768000) by nia.
-  assert (0 <= n * sd <= 1392 * 32768000) by nia.
-  rewrite (wrap64_id ((100 * pre + 425) * sd)) by lia.
+  rewrite (wrap64_id (100 * n)) by lia.
+  rewrite (wrap64_id (100 * pre + 425 + 100 * n)) by lia.
+  set (s := if sf <=? 6 then wrap64 (100 * pre + 425 + 100 * n + 200) else 100 * pre + 425 + 100 * n).
+  assert (Es : s = 100 * pre + (if sf <=? 6 then 625 else 425) + 100 * n).
+  { subst s. destruct (sf <=? 6); [rewrite wrap64_id by lia|]; lia. }
+  assert (Hsb : 0 <= s <= 146225) by (rewrite Es; destruct (sf <=? 6); lia).
+  rewrite <- Es. clearbody s.
+  assert (0 <= s * P <= 146225 * 4096) by nia.
+  rewrite (wrap64_id (s * P)) by lia.
+  rewrite (wrap64_id (s * P * 1000000)) by lia.
+  rewrite (wrap64_id (100 * bw)) by lia.
+  unfold go_div. replace (100 * bw =? 0) with false by lia.
   rewrite Z.quot_div_nonneg by lia.
-  rewrite (wrap64_id ((100 * pre + 425) * sd / 100)) by lia.
-  rewrite (wrap64_id (n * sd)) by lia.
+  assert (0 <= s * P * 1000000 / (100 * bw) <= s * P * 1000000).
+  { split; [apply Z.div_pos; lia|]. apply Z.div_le_upper_bound; nia. }
   rewrite wrap64_id by lia. reflexivity.
 Qed.
 
@@ -136,62 +192,36 @@ Proof.
   intros D1 D2 Hle. exists (airtime_closed_form pl1 sf bw pre cr header ldro), (airtime_closed_form pl2 sf bw pre cr header ldro).
   rewrite !airtime_closed by assumption. split; [reflexivity|split; [reflexivity|]].
   destruct D1 as (Hp & Hs & Hb & Hpre & Hc).
-  destruct (symbol_duration_domain sf bw Hs Hb) as [_ Hsd].
-  unfold airtime_closed_form.
-  assert (Hn : spec_npayload pl1 sf cr header ldro <= spec_npayload pl2 sf cr header ldro).
-  { apply npayload_mono; [|lia|assumption]. unfold sym_b. destruct ldro; cbn [b2z]; lia. }
-  assert (spec_npayload pl1 sf cr header ldro * sym_dur sf bw <= spec_npayload pl2 sf cr header ldro * sym_dur sf bw).
-  { apply Z.mul_le_mono_nonneg_r; lia. }
-  lia.
+  destruct (pow2_sf_bounds sf Hs) as [_ Hpw]. pose proof (bw_bounds bw Hb) as Hbw.
+  unfold airtime_closed_form, symbols100.
+  assert (Hn : spec_npayload pl1 sf cr header ldro <= spec_npayload pl2 sf cr header ldro)
+    by (apply npayload_mono; lia).
+  apply Z.div_le_mono; [lia|]. 
+  apply Z.mul_le_mono_nonneg_r; [lia|]. apply Z.mul_le_mono_nonneg_r; lia.
 Qed.
 
-(* ---- against the formula over Q ---- *)
-Lemma spec_airtime_unfold pl sf bw pre cr header ldro :
-  spec_airtime pl sf bw pre cr header ldro =
-  ((zq pre + 4.25) * spec_tsym sf bw + zq (spec_npayload pl sf cr header ldro) * spec_tsym sf bw)%Q.
-Proof. reflexivity. Qed.
-
-(* moves integer facts into Q and closes linear goals over Q *)
-Ltac z2q H := first [rewrite Zle_Qle in H | rewrite Zlt_Qlt in H].
-Ltac push_q P n pre :=
-  unfold zq in *; repeat (rewrite inject_Z_plus in * || rewrite inject_Z_mult in * );
-  let qP := fresh "qP" in let qn := fresh "qn" in let qpre := fresh "qpre" in
-  set (qP := inject_Z P) in *; set (qn := inject_Z n) in *; set (qpre := inject_Z pre) in *;
-  clearbody qP qn qpre; unfold inject_Z in *.
-
-(* the symbol duration the code uses is the floor of the formula's *)
-Theorem symbol_duration_floor sf bw : 5 <= sf <= 12 -> In bw bw_list ->
-  symbol_duration sf bw = Ok (Qfloor (spec_tsym sf bw)).
+(* ---- against the formula over Q: the result is the formula truncated to whole nanoseconds ---- *)
+Lemma spec_airtime_fraction pl sf bw pre cr header ldro : 0 < bw ->
+  (spec_airtime pl sf bw pre cr header ldro ==
+   inject_Z (symbols100 pl sf pre cr header ldro * 2 ^ sf * 1000000) / inject_Z (100 * bw))%Q.
 Proof.
-  intros Hs Hb. split_sf sf; split_bw Hb; vm_compute; reflexivity.
+  intros Hb. unfold spec_airtime, spec_total_symbols, spec_preamble_symbols, spec_tsym, symbols100, low_sf, zq.
+  rewrite !inject_Z_mult, !inject_Z_plus, !inject_Z_mult.
+  assert (Hnz : ~ (inject_Z bw == 0)%Q).
+  { intros E. unfold Qeq in E. cbn in E. lia. }
+  destruct (sf <=? 6); field; exact Hnz.
 Qed.
 
-(* observed value v against the formula's value s with S symbols in total *)
-Definition within_truncation (v : Z) (s S : Q) : Prop := (s - (S + 1) < inject_Z v /\ inject_Z v <= s)%Q.
-
-Theorem airtime_formula_bound pl sf bw pre cr header ldro : air_domain pl sf bw pre cr ->
-  exists v, airtime pl sf bw pre cr header ldro = Ok v /\
-  within_truncation v (spec_airtime pl sf bw pre cr header ldro) (spec_total_symbols pl sf pre cr header ldro).
+Theorem airtime_formula_floor pl sf bw pre cr header ldro : air_domain pl sf bw pre cr ->
+  airtime pl sf bw pre cr header ldro = Ok (Qfloor (spec_airtime pl sf bw pre cr header ldro)).
 Proof.
-  intros D. exists (airtime_closed_form pl sf bw pre cr header ldro).
-  split; [apply airtime_closed; assumption|].
-  destruct D as (Hp & Hs & Hb & Hpre & Hc).
-  pose proof (npayload_bounds pl sf cr header ldro Hp Hs Hc) as Hn.
-  unfold within_truncation, airtime_closed_form, spec_total_symbols. rewrite spec_airtime_unfold.
-  generalize dependent (spec_npayload pl sf cr header ldro). intros n Hn.
-  destruct Hn as [Hn1 Hn2]. destruct Hpre as [Hq1 Hq2].
-  split_sf sf; split_bw Hb;
-    match goal with |- context [sym_dur ?a ?b] => eval_closed (sym_dur a b) end;
-    match goal with |- context [spec_tsym ?a ?b] => eval_closed (spec_tsym a b) end;
-    match goal with |- context [(?x * ?k / 100)%Z] =>
-      let P := fresh "P" in
-      assert (HP : 100 * (x * k / 100) <= x * k < 100 * (x * k / 100) + 100) by lia;
-      set (P := (x * k / 100)%Z) in *; clearbody P;
-      destruct HP as [HP1 HP2]; z2q HP1; z2q HP2; z2q Hn1; z2q Hn2; z2q Hq1; z2q Hq2;
-      push_q P n pre end;
-    split; lra.
+  intros D. rewrite airtime_closed by assumption. f_equal.
+  destruct D as (_ & _ & Hb & _). pose proof (bw_bounds bw Hb).
+  unfold airtime_closed_form. rewrite Zdiv_Qdiv. apply Qfloor_comp.
+  symmetry. apply spec_airtime_fraction. lia.
 Qed.
 
+(* for 125/250/500 kHz nothing is truncated: the formula's value is a whole number of ns *)
 Theorem airtime_formula_exact pl sf bw pre cr header ldro : air_domain pl sf bw pre cr ->
   In bw [125; 250; 500] ->
   exists v, airtime pl sf bw pre cr header ldro = Ok v /\
@@ -199,18 +229,32 @@ Theorem airtime_formula_exact pl sf bw pre cr header ldro : air_domain pl sf bw 
 Proof.
   intros D Hb3. exists (airtime_closed_form pl sf bw pre cr header ldro).
   split; [apply airtime_closed; assumption|].
-  destruct D as (Hp & Hs & Hb & Hpre & Hc).
-  unfold airtime_closed_form. rewrite spec_airtime_unfold.
-  generalize (spec_npayload pl sf cr header ldro). intros n.
-  cbn [In] in Hb3.
-  split_sf sf; destruct Hb3 as [<-|[<-|[<-|[]]]];
-    match goal with |- context [sym_dur ?a ?b] => eval_closed (sym_dur a b) end;
-    match goal with |- context [spec_tsym ?a ?b] => eval_closed (spec_tsym a b) end;
-    match goal with |- context [(?x * ?k / 100)%Z] =>
-      let P := fresh "P" in
-      assert (HP1 : 100 * (x * k / 100) <= x * k) by lia;
-      assert (HP2 : x * k <= 100 * (x * k / 100)) by lia;
-      set (P := (x * k / 100)%Z) in *; clearbody P;
-      z2q HP1; z2q HP2; push_q P n pre end;
-    lra.
+  assert (Hk : exists k, 1000000 = 100 * bw * k /\ 0 < bw).
+  { cbn [In] in Hb3. destruct Hb3 as [<-|[<-|[<-|[]]]]; [exists 80|exists 40|exists 20]; lia. }
+  destruct Hk as (k & Hk & Hbw).
+  rewrite spec_airtime_fraction by exact Hbw.
+  unfold airtime_closed_form.
+  set (s := symbols100 pl sf pre cr header ldro * 2 ^ sf).
+  replace (s * 1000000) with (s * k * (100 * bw)) by (rewrite Hk; ring).
+  rewrite Z.div_mul by lia.
+  rewrite (inject_Z_mult (s * k) (100 * bw)).
+  assert (Hnz : ~ (inject_Z (100 * bw) == 0)%Q).
+  { intros E. unfold Qeq, inject_Z in E. cbn [Qnum Qden] in E. lia. }
+  field. exact Hnz.
 Qed.
+
+(* the symbol duration helper is the floor of the formula's symbol time *)
+Theorem symbol_duration_floor sf bw : 5 <= sf <= 12 -> In bw bw_list ->
+  symbol_duration sf bw = Ok (Qfloor (spec_tsym sf bw)).
+Proof.
+  intros Hs Hb. split_sf sf; split_bw Hb; vm_compute; reflexivity.
+Qed.
+
+(* ---- the code before the two repairs ---- *)
+(* SF5: two preamble symbols short and (here) five payload symbols long; 812 kHz (SF7, 255 bytes): 287 ns below the truncated formula *)
+Theorem airtime_orig_refuted :
+  airtime_orig 10 5 125 8 1 true false = Ok 12864000 /\ Qfloor (spec_airtime 10 5 125 8 1 true false) = 12096000 /\
+  airtime 10 5 125 8 1 true false = Ok 12096000 /\
+  airtime_orig 255 7 812 8 4 true false = Ok 96512028 /\ Qfloor (spec_airtime 255 7 812 8 4 true false) = 96512315 /\
+  airtime 255 7 812 8 4 true false = Ok 96512315.
+Proof. vm_compute. repeat split; reflexivity. Qed.
